@@ -112,3 +112,50 @@ def path_mask(path, env, rows):
             v = tm.evaluate(c[1], env)
             m &= (v == c[2])
     return m
+
+
+def strip_closure(path):
+    """the function a closure / nested constant belongs to"""
+    import re
+    return re.sub(r"(::\{closure#\d+\}|::\{constant#\d+\})+$", "", path)
+
+
+def api_entry_points(prog, names):
+    """the functions through which the outside world drives the core: public methods of Emulator and the
+    controller's implementation of the CPU bus"""
+    out = set()
+    EM = prog.adt_path("rustzx_core", "Emulator")
+    for p, f in prog.fns.items():
+        if not f.local or not f.assoc:
+            continue
+        st = f.assoc.get("self_ty")
+        if not st or st[0] != "adt":
+            continue
+        if st[1] == EM and f.assoc.get("trait") is None and f.vis == "pub":
+            out.add(p)
+        if st[1] == names.CTL and f.assoc.get("trait") is not None and f.assoc["trait"]["path"].endswith("::Z80Bus"):
+            out.add(p)
+    return out
+
+
+def entry_points_reaching(prog, cg, names, target):
+    """API entry points (short names) from which `target` can be called, found by walking the resolved call graph
+    upwards; a function without callers that is not an entry point is reported under its own name"""
+    entries = api_entry_points(prog, names)
+    seen, roots = set(), set()
+    work = [target]
+    while work:
+        p0 = work.pop()
+        p = strip_closure(p0)
+        if p in seen:
+            continue
+        seen.add(p)
+        if p in entries and p != target:
+            roots.add(p.split("::")[-1])
+            continue
+        cs = [s.fn.path for s in cg.callers_of(p)] + ([s.fn.path for s in cg.callers_of(p0)] if p0 != p else [])
+        cs = [c for c in cs if strip_closure(c) != p]
+        if not cs and p != target:
+            roots.add(p.split("::")[-1])
+        work.extend(cs)
+    return roots
